@@ -11,7 +11,7 @@
 (*    replayed into the real chunks.assign / chunks.get on a flat lattice.               *)
 EXTENDS SphereMatch, TLC
 CONSTANTS Mode, N1s, N2s, Ks, MaxRank, MaxCand,
-          NCs, NBs, Ss, Wrap, Guard
+          NCs, NBs, Ss, Wrap, Guard, Walk
 VARIABLE h            \* hash case [kind, g, p, cells, need, allow] or [kind |-> "none"]
 
 NoHash == [kind |-> "none"]
@@ -43,8 +43,8 @@ HashCase(g, p) == [kind |-> "hash", g |-> g, p |-> p, cells |-> Assign(g, p),
                    need |-> Needed(g, p), allow |-> Allowed(g, p)]
 InitHash ==
   /\ InitWith(NoProblem)
-  /\ \E nc \in NCs : \E nb \in NBs : \E s \in Ss : \E m \in 1..(s - 1) :
-       LET g == [nc |-> nc, nb |-> nb, s |-> s, m |-> m, wrap |-> Wrap, guard |-> Guard] IN
+  /\ \E nc \in NCs : \E nb \in NBs : \E s \in Ss : \E m \in 1..(s - 1) : \E hh \in 1..s :
+       LET g == [nc |-> nc, nb |-> nb, s |-> s, h |-> hh, m |-> m, wrap |-> Wrap, guard |-> Guard, walk |-> Walk] IN
        \E p \in PointsOf(g) : h = HashCase(g, p)
 
 Init == IF Mode = "greedy" THEN InitGreedy ELSE InitHash
